@@ -4,6 +4,7 @@ CFG = {
     "lean_exe": "lm_c11",
     "hooks": True,
     "theorems": [
+        "Leptos.Keyed.C11_build_wf",
         "Leptos.Keyed.C11_unpack_complete",
         "Leptos.Keyed.C11_unpack_complete_diff",
         "Leptos.Keyed.C11_group_complete",
@@ -13,6 +14,7 @@ CFG = {
         "Leptos.Keyed.C11_identity_nodes_leave",
         "Leptos.Keyed.C11_dom_order_witness",
         "Leptos.Keyed.C11_dom_order_partial",
+        "Leptos.Keyed.C11_dom_order_iff",
         "Leptos.Keyed.C11_history",
         "Leptos.Keyed.C11_history_dom_order_partial",
         "Leptos.Keyed.rebuild_summary",
